@@ -1,1 +1,268 @@
 // harness bodies for h2 src/codec/framed_write.rs (compiled in-crate as `verif_h`, feature "verif")
+//
+// C01.write / C12.write / C12.max: whatever the transport accepts, concatenated, is a
+// prefix of serialize(frame); after flush returns Ready(Ok) it is all of it; a write
+// of zero bytes is WriteZero; the DATA frame is handed back only after its last byte.
+use super::*;
+use std::task::Waker;
+
+pub(crate) const EXP: usize = 40;
+
+/// Transport: accepts an arbitrary non-empty prefix of what it is offered (or returns
+/// Pending) for at most `budget` calls, then accepts everything.  Instead of copying,
+/// it checks one *symbolic* position of every accepted chunk against the expected
+/// serialization - the solver thereby checks all positions.
+pub(crate) struct Mock {
+    pub expect: [u8; EXP],
+    pub total: usize,
+    pub n: usize,
+    pub budget: u8,
+    pub allow_zero: bool,
+    pub flushed: bool,
+}
+impl Mock {
+    pub(crate) fn new(expect: [u8; EXP], total: usize, budget: u8) -> Mock {
+        Mock { expect, total, n: 0, budget, allow_zero: false, flushed: false }
+    }
+}
+impl AsyncWrite for Mock {
+    fn poll_write(mut self: Pin<&mut Self>, _cx: &mut Context<'_>, buf: &[u8]) -> Poll<io::Result<usize>> {
+        assert!(!buf.is_empty(), "transport offered an empty chunk while bytes remain");
+        let mut k = buf.len();
+        if self.budget > 0 {
+            self.budget -= 1;
+            if kani::any() {
+                return Poll::Pending;
+            }
+            k = kani::any();
+            kani::assume(k <= buf.len());
+            if k == 0 {
+                kani::assume(self.allow_zero);
+                return Poll::Ready(Ok(0));
+            }
+        }
+        assert!(self.n + k <= self.total, "C12.write: more bytes written than the frame serialises to (duplication)");
+        let j: usize = kani::any();
+        kani::assume(j < k);
+        assert!(buf[j] == self.expect[self.n + j], "C12.write: byte differs from serialize(frame) (drop/reorder/corruption)");
+        self.n += k;
+        Poll::Ready(Ok(k))
+    }
+    fn poll_flush(mut self: Pin<&mut Self>, _cx: &mut Context<'_>) -> Poll<io::Result<()>> {
+        self.flushed = true;
+        Poll::Ready(Ok(()))
+    }
+    fn poll_shutdown(self: Pin<&mut Self>, _cx: &mut Context<'_>) -> Poll<io::Result<()>> {
+        Poll::Ready(Ok(()))
+    }
+}
+
+/// payload with content: 8 symbolic bytes, `len` of them used
+#[derive(Debug)]
+pub(crate) struct ArrBuf {
+    pub data: [u8; 8],
+    pub pos: usize,
+    pub len: usize,
+}
+impl Buf for ArrBuf {
+    fn remaining(&self) -> usize {
+        self.len - self.pos
+    }
+    fn chunk(&self) -> &[u8] {
+        &self.data[self.pos..self.len]
+    }
+    fn advance(&mut self, cnt: usize) {
+        assert!(cnt <= self.len - self.pos, "advance past the end");
+        self.pos += cnt;
+    }
+}
+
+/// reference serializer: RFC 9113 §4.1 head + payload
+fn ref_frame(ty: u8, flags: u8, sid: u32, payload: &[u8]) -> ([u8; EXP], usize) {
+    let mut e = [0u8; EXP];
+    let l = payload.len();
+    e[0] = (l >> 16) as u8;
+    e[1] = (l >> 8) as u8;
+    e[2] = l as u8;
+    e[3] = ty;
+    e[4] = flags;
+    e[5] = (sid >> 24) as u8;
+    e[6] = (sid >> 16) as u8;
+    e[7] = (sid >> 8) as u8;
+    e[8] = sid as u8;
+    let mut i = 0;
+    while i < l {
+        e[9 + i] = payload[i];
+        i += 1;
+    }
+    (e, 9 + l)
+}
+
+/// A `FramedWrite` over the mock with *shrunk sizes* (DESIGN §2.3): 64-byte write buffer
+/// instead of 16 KiB and a chain threshold of 4 instead of 256/1024.  The code only
+/// compares against these fields; the frames used here are <= 17 bytes.
+fn small_fw<B: Buf>(mock: Mock) -> FramedWrite<Mock, B> {
+    let mut fw: FramedWrite<Mock, B> = FramedWrite::new(mock);
+    fw.encoder.buf = Cursor::new(BytesMut::with_capacity(64));
+    fw.encoder.chain_threshold = 4;
+    fw.encoder.min_buffer_capacity = 4 + 9;
+    fw
+}
+
+/// drives `flush` until Ready or `max_calls` (every Pending consumes mock budget)
+fn drive_flush<B: Buf>(fw: &mut FramedWrite<Mock, B>, max_calls: usize) -> Option<io::Result<()>> {
+    let waker = Waker::noop();
+    let mut cx = Context::from_waker(&waker);
+    let mut i = 0;
+    while i < max_calls {
+        match fw.flush(&mut cx) {
+            Poll::Ready(r) => return Some(r),
+            Poll::Pending => {}
+        }
+        i += 1;
+    }
+    None
+}
+
+fn any_sid() -> u32 {
+    let s: u32 = kani::any();
+    kani::assume(s >= 1 && s <= 0x7fff_ffff);
+    s
+}
+
+/// control frames: kind 0 = PING, 1 = RST_STREAM, 2 = WINDOW_UPDATE
+fn write_control(kind: u8, budget: u8) {
+    let (frame, expect, total): (Frame<ArrBuf>, [u8; EXP], usize) = if kind == 0 {
+        let p: [u8; 8] = kani::any();
+        let ack: bool = kani::any();
+        let (e, t) = ref_frame(6, ack as u8, 0, &p);
+        (if ack { frame::Ping::pong(p).into() } else { frame::Ping::new(p).into() }, e, t)
+    } else if kind == 1 {
+        let sid = any_sid();
+        let code: u32 = kani::any();
+        let (e, t) = ref_frame(3, 0, sid, &code.to_be_bytes());
+        (frame::Reset::new(sid.into(), code.into()).into(), e, t)
+    } else {
+        let sid: u32 = kani::any();
+        kani::assume(sid <= 0x7fff_ffff);
+        let inc: u32 = kani::any();
+        kani::assume(inc >= 1 && inc <= 0x7fff_ffff);
+        let (e, t) = ref_frame(8, 0, sid, &inc.to_be_bytes());
+        (frame::WindowUpdate::new(sid.into(), inc).into(), e, t)
+    };
+    let mut fw: FramedWrite<Mock, ArrBuf> = small_fw(Mock::new(expect, total, budget));
+    assert!(fw.has_capacity());
+    fw.buffer(frame).unwrap();
+    let r = drive_flush(&mut fw, budget as usize + 1);
+    match &r {
+        Some(Ok(())) => {
+            assert!(fw.inner.n == total, "C12.write: flush reported success before every byte was written");
+            assert!(fw.inner.flushed, "transport not flushed");
+            assert!(fw.has_capacity(), "encoder not reusable after a complete flush");
+        }
+        Some(Err(_)) => panic!("flush failed although the transport never failed"),
+        None => panic!("flush still Pending after the transport stopped returning Pending"),
+    }
+    assert!(fw.take_last_data_frame().is_none(), "a control frame produced a reclaimable DATA frame");
+    kani::cover!(fw.inner.budget == 0 && budget > 0, "partial_writes_used");
+    kani::cover!(true, "end");
+    std::mem::forget(r);
+    std::mem::forget(fw);
+}
+pub fn c12_write_ping() { write_control(0, 2) }
+pub fn c12_write_reset() { write_control(1, 2) }
+pub fn c12_write_window_update() { write_control(2, 2) }
+
+/// DATA frames.  `chained`: payload >= chain threshold (threshold shrunk to 4 so that 4..=8
+/// byte payloads take the chained path: head in the buffer, payload written from the
+/// user's buffer); otherwise the whole frame is copied into the write buffer.
+fn write_data(len: usize, budget: u8) {
+    // payload length concrete per query (a symbolic-length copy did not finish symbolic execution)
+    let chained = len >= 4;
+    let data: [u8; 8] = kani::any();
+    let sid = any_sid();
+    let eos: bool = kani::any();
+    let (expect, total) = ref_frame(0, eos as u8, sid, &data[..len]);
+    let mut fw: FramedWrite<Mock, ArrBuf> = small_fw(Mock::new(expect, total, budget));
+    let mut d = frame::Data::new(sid.into(), ArrBuf { data, pos: 0, len });
+    d.set_end_stream(eos);
+    fw.buffer(d.into()).unwrap();
+    if !chained {
+        // fully encoded by `buffer`: handed back at once (the slot is reclaimed by the caller)
+    } else {
+        assert!(fw.encoder.last_data_frame.is_none(), "C01.write: chained DATA handed back before its last byte was written");
+        assert!(!fw.has_capacity(), "another frame could be interleaved into a chained DATA frame");
+    }
+    let r = drive_flush(&mut fw, budget as usize + 1);
+    match &r {
+        Some(Ok(())) => {
+            assert!(fw.inner.n == total, "C12.write: flush reported success before every byte was written");
+        }
+        Some(Err(_)) => panic!("flush failed although the transport never failed"),
+        None => panic!("flush still Pending after the transport stopped returning Pending"),
+    }
+    match fw.take_last_data_frame() {
+        Some(back) => {
+            assert!(back.payload().remaining() == 0, "reclaimed DATA frame still has unwritten bytes");
+            assert!(back.is_end_stream() == eos && u32::from(back.stream_id()) == sid);
+            std::mem::forget(back);
+        }
+        None => panic!("C01.write: written DATA frame was not handed back for reclaim"),
+    }
+    assert!(fw.take_last_data_frame().is_none(), "DATA frame handed back twice");
+    kani::cover!(fw.inner.budget == 0 && budget > 0, "partial_writes_used");
+    kani::cover!(true, "end");
+    std::mem::forget(r);
+    std::mem::forget(fw);
+}
+pub fn c12_write_data_len0() { write_data(0, 2) }
+pub fn c12_write_data_len3() { write_data(3, 2) }
+pub fn c12_write_data_len4() { write_data(4, 1) }
+pub fn c12_write_data_len8() { write_data(8, 1) }
+
+/// a transport that accepts zero bytes => WriteZero, never a busy loop or silent success
+pub fn c12_write_zero() {
+    let p: [u8; 8] = kani::any();
+    let (e, t) = ref_frame(6, 0, 0, &p);
+    let mut mock = Mock::new(e, t, 1);
+    mock.allow_zero = true;
+    let mut fw: FramedWrite<Mock, ArrBuf> = small_fw(mock);
+    fw.buffer(frame::Ping::new(p).into()).unwrap();
+    let waker = Waker::noop();
+    let mut cx = Context::from_waker(&waker);
+    let r = fw.flush(&mut cx);
+    match &r {
+        Poll::Ready(Err(e)) => assert!(e.kind() == io::ErrorKind::WriteZero && fw.inner.n == 0),
+        Poll::Ready(Ok(())) => assert!(fw.inner.n == t, "success reported without writing everything"),
+        Poll::Pending => assert!(fw.inner.n == 0),
+    }
+    kani::cover!(matches!(&r, Poll::Ready(Err(_))), "write_zero");
+    kani::cover!(true, "end");
+    std::mem::forget(r);
+    std::mem::forget(fw);
+}
+
+/// C12.max: DATA larger than the peer's MAX_FRAME_SIZE is refused and nothing is buffered.
+pub fn c12_max_data_too_big() {
+    let max: usize = kani::any();
+    kani::assume(max >= 16_384 && max <= 16_777_215);
+    let rem: usize = kani::any();
+    let mut fw: FramedWrite<Mock, crate::proto::verif_h::SymBuf> = FramedWrite::new(Mock::new([0; EXP], 0, 0));
+    fw.set_max_frame_size(max);
+    // small frames only (large ones would be written from the payload: covered by c12_write_data_chained)
+    kani::assume(rem > max || rem < 4);
+    let d = frame::Data::new(frame::StreamId::from(1), crate::proto::verif_h::SymBuf { off: 0, rem });
+    let r = fw.buffer(d.into());
+    match &r {
+        Ok(()) => assert!(rem <= max),
+        Err(e) => {
+            assert!(rem > max, "legal DATA refused");
+            assert!(matches!(e, UserError::PayloadTooBig));
+            assert!(fw.encoder.buf.get_ref().is_empty() && fw.encoder.next.is_none() && fw.encoder.last_data_frame.is_none(),
+                "something was buffered for a refused frame");
+        }
+    }
+    kani::cover!(r.is_err(), "refused");
+    kani::cover!(true, "end");
+    std::mem::forget(fw);
+}
